@@ -17,6 +17,74 @@ const QUARANTINE: usize = 512;
 
 pub static MODE: AtomicU8 = AtomicU8::new(0);
 pub static REUSED: AtomicUsize = AtomicUsize::new(0);
+/// mode 2: first write into freed (quarantined, poisoned) memory that was noticed: address of
+/// the modified byte, 0 = none; and the size class of that block
+pub static WRITE_AFTER_FREE: AtomicUsize = AtomicUsize::new(0);
+pub static WRITE_AFTER_FREE_CLASS: AtomicUsize = AtomicUsize::new(0);
+
+/// is the poison of a quarantined block intact? (allocation-free)
+unsafe fn check_poison(p: *mut u8, c: usize) {
+    let n = (c + 1) * CLASS;
+    let mut i = 0;
+    while i < n {
+        if *p.add(i) != 0xDD {
+            if WRITE_AFTER_FREE.load(Ordering::Relaxed) == 0 {
+                WRITE_AFTER_FREE_CLASS.store(c, Ordering::Relaxed);
+                WRITE_AFTER_FREE.store(p as usize + i, Ordering::Relaxed);
+            }
+            return;
+        }
+        i += 1;
+    }
+}
+
+/// check every block that is still in quarantine (end of a run); returns the address of a
+/// modified byte and the block size if freed memory was written to
+pub fn verify_quarantine() -> Option<(usize, usize)> {
+    if MODE.load(Ordering::Relaxed) == 2 {
+        lock();
+        unsafe {
+            let mut k = 0;
+            while k < QUARANTINE {
+                let (p, c) = Q[k];
+                if !p.is_null() {
+                    check_poison(p, c);
+                }
+                k += 1;
+            }
+        }
+        unlock();
+    }
+    if MODE.load(Ordering::Relaxed) == 1 {
+        // the links of the free lists live in freed blocks
+        lock();
+        unsafe {
+            let mut c = 0;
+            while c < NCLASS {
+                let mut p = FREE[c];
+                let mut n = 0;
+                while !p.is_null() && n < 100_000 {
+                    let next = (p as *mut *mut u8).read_unaligned();
+                    if (next as usize) % CLASS != 0 {
+                        if WRITE_AFTER_FREE.load(Ordering::Relaxed) == 0 {
+                            WRITE_AFTER_FREE_CLASS.store(c, Ordering::Relaxed);
+                            WRITE_AFTER_FREE.store(p as usize, Ordering::Relaxed);
+                        }
+                        break;
+                    }
+                    p = next;
+                    n += 1;
+                }
+                c += 1;
+            }
+        }
+        unlock();
+    }
+    match WRITE_AFTER_FREE.load(Ordering::Relaxed) {
+        0 => None,
+        a => Some((a, (WRITE_AFTER_FREE_CLASS.load(Ordering::Relaxed) + 1) * CLASS)),
+    }
+}
 
 static LOCK: AtomicBool = AtomicBool::new(false);
 static mut FREE: [*mut u8; NCLASS] = [std::ptr::null_mut(); NCLASS];
@@ -41,6 +109,13 @@ fn lock() {
     }
 }
 
+/// for crash / watchdog paths: whatever state the allocator is in, make it usable again
+/// (plain pass-through to the system allocator, lock released)
+pub fn emergency() {
+    MODE.store(0, Ordering::Relaxed);
+    LOCK.store(false, Ordering::Release);
+}
+
 #[inline]
 fn unlock() {
     LOCK.store(false, Ordering::Release);
@@ -55,12 +130,26 @@ unsafe impl GlobalAlloc for SimAlloc {
                     lock();
                     let p = FREE[c];
                     if !p.is_null() {
-                        FREE[c] = *(p as *mut *mut u8);
+                        // the link lives in the freed block: somebody who writes to freed memory
+                        // overwrites it. Nothing in here may panic or fault (the lock is held)
+                        let next = (p as *mut *mut u8).read_unaligned();
+                        if (next as usize) % CLASS != 0 {
+                            if WRITE_AFTER_FREE.load(Ordering::Relaxed) == 0 {
+                                WRITE_AFTER_FREE_CLASS.store(c, Ordering::Relaxed);
+                                WRITE_AFTER_FREE.store(p as usize, Ordering::Relaxed);
+                            }
+                            // drop the damaged list, go on with fresh memory
+                            FREE[c] = std::ptr::null_mut();
+                            unlock();
+                        } else {
+                            FREE[c] = next;
+                            unlock();
+                            REUSED.fetch_add(1, Ordering::Relaxed);
+                            return p;
+                        }
+                    } else {
                         unlock();
-                        REUSED.fetch_add(1, Ordering::Relaxed);
-                        return p;
                     }
-                    unlock();
                 }
                 System.alloc(Layout::from_size_align_unchecked((c + 1) * CLASS, CLASS))
             }
@@ -87,6 +176,8 @@ unsafe impl GlobalAlloc for SimAlloc {
                         Q_POS = (Q_POS + 1) % QUARANTINE;
                         unlock();
                         if !old.0.is_null() {
+                            // leaving the quarantine: was it written to while it was freed?
+                            check_poison(old.0, old.1);
                             System.dealloc(old.0, Layout::from_size_align_unchecked((old.1 + 1) * CLASS, CLASS));
                         }
                     }
